@@ -535,6 +535,7 @@ def instance(I, schema, name, path=()):
         return v
     if t == 'string':
         v = Sym(_leaf(I, name, StrSort, path), 'str')
+        I.ghost.setdefault('validated', {})[v.t.sexpr()] = schema
         f = z3.Function(name, *([x.sort() for x in path] + [StrSort])) \
             if path else None
         tm = (lambda ix: f(*ix)) if path else (lambda ix: v.t)
@@ -585,6 +586,20 @@ def extract_json_contract(I, args, kwargs):
             (k, sub), = props.items()
             if k in schema.get('required', []):
                 string_facts(I, args_[0].t, sub)
+    jprov = I.ghost.get('json_provenance', {})
+    if isinstance(body, Sym) and body.t.sexpr() in jprov:
+        # the text was produced by jsonutils.dumps(x): the validated document
+        # is x itself
+        doc = jprov[body.t.sexpr()]
+        if isinstance(doc, VDict) and schema.get('type') == 'object':
+            for k, sub in schema.get('properties', {}).items():
+                v = doc.items.get(k)
+                if isinstance(v, Sym) and v.ty == 'str' and \
+                        sub.get('type') == 'string':
+                    string_facts(I, v.t, sub)
+                    I.ghost.setdefault('validated', {})[v.t.sexpr()] = sub
+            I.event('extract_json.result', doc)
+            return doc
     inst = instance(I, schema, 'body')
     I.event('extract_json.result', inst)
     return inst
